@@ -54,6 +54,25 @@ theorem thresholds_pinned :
     CJ.Gen.C01.obfs4RandomizeMinVersion = genConsts.randomizeMinVersion ∧
     CJ.Gen.C01.prefixRandomizeMinVersion = genConsts.randomizeMinVersion := by decide
 
+/-- **The published constants**, literally: port ranges, default ports, the first library version
+with port randomisation, the default port of every published prefix.  Client and station read most
+of these from shared declarations, so a change moves both ends together — and strands every client
+already in the field; the comparison of the two sides cannot see that, this theorem does.  (The
+station may *add* prefixes; the published ones must keep their ports.) -/
+theorem constants_pinned :
+    CJ.Gen.C01.minRange = (1024, 65535) ∧ CJ.Gen.C01.obfs4Range = (22, 65535) ∧
+    CJ.Gen.C01.prefixRange = (1024, 65535) ∧ CJ.Gen.C01.dtlsRange = (1024, 65535) ∧
+    CJ.Gen.C01.dtlsDefaultPort = 443 ∧
+    CJ.Gen.C01.ingestRandomizeMinVersion = 3 ∧ CJ.Gen.C01.coreRandomizeDstPortMinVersion = 3 ∧
+    CJ.Gen.C01.minRandomizeMinVersion = 3 ∧ CJ.Gen.C01.obfs4RandomizeMinVersion = 3 ∧
+    CJ.Gen.C01.prefixRandomizeMinVersion = 3 ∧
+    CJ.Gen.C01.phantomSelectionMinGeneration = 1 ∧ CJ.Gen.C01.phantomHkdfMinVersion = 2 ∧
+    CJ.Gen.C01.sharedKeysRefactorMinVersion = 4 ∧
+    (∀ p ∈ [((0 : Int), 443), (1, 80), (2, 80), (3, 80), (4, 443), (5, 443), (6, 443), (7, 443), (8, 53), (9, 22)],
+      p ∈ CJ.Gen.C01.stationPrefixes ∧ p ∈ CJ.Gen.C01.clientPrefixes) ∧
+    (∀ p ∈ [((0 : Int), 3), (1, 3), (2, 3), (3, 3), (4, 3), (5, 3), (6, 3), (7, 3), (8, 3), (9, 3)],
+      p ∈ CJ.Gen.C01.prefixMinVersions) := by decide
+
 /-- `GenSharedKeys` places the seed where the published derivation of each library version has it
 (104 bytes into the stream before the key refactor, at its start from version 4 on), and so does the
 client code of this repository for its own version: measured on the code, compared with the model -/
@@ -106,15 +125,48 @@ theorem client_keys_eq_station (c : Crypto) (secret : Bytes) :
     clientSharedKeys c secret = genSharedKeys c currentClientVersion secret := by
   rw [genSharedKeys_eq_spec]; exact clientSharedKeys_eq_spec c secret
 
-/-- obfs4 node keys, connect tags: both ends compute the identifier from the same stream bytes /
-the same HMAC label (every transport that has a client-side identifier) -/
-theorem identifiers_agree (c : Crypto) (t : Transport) (secret : Bytes) (keys : Keys) (ht : t ≠ .dtls) :
-    stationIdentifier c t secret keys = clientIdentifier c t secret keys :=
-  ident_agree c t secret keys ht
+/-- **Identifiers across the two key derivations.**  The station computes the identifier from the keys
+`GenSharedKeys(ver, secret)` gives it, the client of library version `ver` from the keys of the published
+derivation of that version.  For obfs4 this is where the two could part: the node keys are the 32 + 20
+bytes *after* the seed, and where the seed sits depends on the version (104 bytes into the stream before
+the key refactor).  For min and prefix both ends are the same HMAC label in the model; that the real
+client emits exactly these bytes is tied by the harness alone (the captured `WrapConn` flight — for
+prefix the tag revealed with the station key — against the station's `GetIdentifier` and the Lean HMAC). -/
+theorem identifiers_agree (c : Crypto) (t : Transport) (ver : Nat) (secret : Bytes) (ks kc : Keys)
+    (hs : genSharedKeys c ver secret = .ok ks) (hc : specClientKeys c ver secret = .ok kc) (ht : t ≠ .dtls) :
+    stationIdentifier c t secret ks = clientIdentifier c t secret kc := by
+  rw [genSharedKeys_eq_spec, hc] at hs
+  have e : kc = ks := Outcome.ok.inj hs
+  rw [← e]
+  exact ident_agree c t secret kc ht
+
+/-- the client code of this repository (`GenerateClientSharedKeys`, library version
+`currentClientVersion`): the reader it hands to `PrepareKeys` stands where the station's does -/
+theorem identifiers_agree_current (c : Crypto) (t : Transport) (secret : Bytes) (ks kc : Keys)
+    (hs : genSharedKeys c currentClientVersion secret = .ok ks) (hc : clientSharedKeys c secret = .ok kc)
+    (ht : t ≠ .dtls) : stationIdentifier c t secret ks = clientIdentifier c t secret kc := by
+  rw [clientSharedKeys_eq_spec] at hc
+  exact identifiers_agree c t currentClientVersion secret ks kc hs hc ht
+
+/-- **DTLS credentials**: both ends hand the same pre-shared key — the shared secret itself — to the
+handshake, for every library version (the client's choice does not depend on the keys or the reader
+position of its version), hence derive the same ClientHello random and certificates.  In the model
+both sides are the secret; what ties this to the code is the harness: the key the real client transport
+holds after `PrepareKeys` and the one the station reads from the registration are compared with each
+other and with this model (`dtlscred|…` lines), the certificates derived from both are compared, and
+`certsFromSeed` is pinned by golden vectors. -/
+theorem dtls_credentials_agree (hello : Bytes → Bytes) (c : Crypto) (ver : Nat) (secret : Bytes) (kc : Keys)
+    (_hc : specClientKeys c ver secret = .ok kc) :
+    dtlsCred hello (clientDtlsPsk secret kc) = dtlsCred hello (stationDtlsPsk secret) ∧
+    (dtlsCred hello (stationDtlsPsk secret)).psk = secret := ⟨rfl, rfl⟩
 
 /-! ### ports -/
 
-/-- whatever port the client dials, the station registers (same parameters, same subnet flag) -/
+/-- whatever port the client dials, the station registers (same parameters, same subnet flag).
+`clientPort` is the transport's `GetDstPort` under the *dialer's rule* — 443 for library versions before
+port randomisation and whenever the selected phantom's subnet does not support it.  That rule lives in
+the client library outside this repository (gotapdance); it is an assumption of the plan, written down
+once more in the harness (`c.ver >= 3 && s.rp`), not something the check reads off code. -/
 theorem port_station_eq_client (k : Consts) (s : Stream) (lim : Nat) (t : Transport) (ver : Nat)
     (sess : Option Wire) (sr : Bool) (q : Nat)
     (htab : ∀ id, lookupPrefix k.stationPrefixes id = lookupPrefix k.clientPrefixes id)
@@ -138,14 +190,37 @@ theorem port_in_range (s : Stream) (lim : Nat) (t : Transport) (ver : Nat) (data
     (q : Nat) (h : stationPort genConsts s lim t ver data sr = .ok q) : PortOrigin genConsts s lim t q :=
   stationPort_origin genConsts ranges_wf s lim t ver data sr q h
 
-/-- absent parameters or `randomize_dst_port = false`: the fixed port of the transport -/
+/-- absent parameters or `randomize_dst_port = false`: the fixed port of the transport — 443 for min
+and obfs4; for DTLS 443 or the transport's default port (pinned to 443 by `constants_pinned`); for a
+prefix the prefix's default port where the subnet allows randomisation, 443 where it does not -/
 theorem port_fixed_when_not_randomising (k : Consts) (s : Stream) (lim : Nat) (ver : Nat) (sr : Bool) :
     stationPort k s lim .min ver none sr = .ok 443 ∧
     stationPort k s lim .min ver (some (.generic false)) sr = .ok 443 ∧
     stationPort k s lim .obfs4 ver none sr = .ok 443 ∧
-    stationPort k s lim .obfs4 ver (some (.generic false)) sr = .ok 443 := by
-  by_cases hv : ver < k.randomizeMinVersion <;> cases sr <;>
-    simp [stationPort, parseParams, getPhantomDstPort, transportDstPort, hv]
+    stationPort k s lim .obfs4 ver (some (.generic false)) sr = .ok 443 ∧
+    stationPort k s lim .dtls ver none sr =
+      .ok (if ver < k.randomizeMinVersion ∨ sr = false then 443 else k.dtlsDefault) ∧
+    stationPort k s lim .dtls ver (some (.dtls false)) sr =
+      .ok (if ver < k.randomizeMinVersion ∨ sr = false then 443 else k.dtlsDefault) ∧
+    (∀ id d, lookupPrefix k.stationPrefixes id = some d → k.randomizeMinVersion ≤ ver →
+      stationPort k s lim .prefix ver (some (.prefix id false)) sr = .ok (if sr = false then 443 else d)) := by
+  refine ⟨?_, ?_, ?_, ?_, ?_, ?_, ?_⟩
+  iterate 6
+    by_cases hv : ver < k.randomizeMinVersion <;> cases sr <;>
+      simp [stationPort, parseParams, getPhantomDstPort, transportDstPort, hv]
+  intro id d hl hv'
+  have hv : ¬ ver < k.randomizeMinVersion := by omega
+  cases sr <;> simp [stationPort, parseParams, getPhantomDstPort, transportDstPort, hv, hl]
+
+/-- with the code's constants the fixed DTLS port is 443 whatever the subnet says -/
+theorem dtls_port_fixed_gen (s : Stream) (lim : Nat) (ver : Nat) (sr : Bool) :
+    stationPort genConsts s lim .dtls ver none sr = .ok 443 ∧
+    stationPort genConsts s lim .dtls ver (some (.dtls false)) sr = .ok 443 := by
+  have h := port_fixed_when_not_randomising genConsts s lim ver sr
+  have hd : genConsts.dtlsDefault = 443 := by decide
+  refine ⟨?_, ?_⟩
+  · rw [h.2.2.2.2.1, hd]; simp
+  · rw [h.2.2.2.2.2.1, hd]; simp
 
 /-! ### determinism, totality, containment -/
 
